@@ -113,3 +113,18 @@ Theorem write_never_overwrites_unread_bytes :
     forall i, rp s <= i < wp s -> mem (fst (write s d)) (i mod cap s) = mem s (i mod cap s).
 Proof. exact write_preserves_unread. Qed.
 Print Assumptions write_never_overwrites_unread_bytes.
+
+(* Region safety, for any state with a positive capacity and rp <= wp: a write never touches an address outside
+   the data region [0, cap) ... *)
+Theorem write_never_leaves_the_data_region :
+  forall s d a, 0 < cap s -> rp s <= wp s -> (a < 0 \/ cap s <= a) -> mem (fst (write s d)) a = mem s a.
+Proof. exact write_stays_in_region. Qed.
+Print Assumptions write_never_leaves_the_data_region.
+
+(* ... and what a read returns depends on no address outside it. *)
+Theorem read_never_looks_outside_the_data_region :
+  forall s m' size, 0 < cap s -> rp s <= wp s -> wp s - rp s <= cap s ->
+    (forall a, 0 <= a < cap s -> m' a = mem s a) ->
+    snd (read {| cap := cap s; wp := wp s; rp := rp s; mem := m' |} size) = snd (read s size).
+Proof. exact read_looks_only_inside_region. Qed.
+Print Assumptions read_never_looks_outside_the_data_region.
